@@ -205,7 +205,10 @@ def run_family(pid, tier, rule, select, want=lambda p: True, cap=None, wrappers=
     progs = list(always) + progs
     items = [fix_opts(p) for p in progs]
     traces = drive(items, extra_paths)
+    import protocol
+    n_proto = protocol.run(res, pid, traces, wd, tier)       # spec/Solve.tla: every recorded solve, call by call
     res.traces = res.evaluations = len([t for t in traces if t["solves"]])
+    res.evaluations += n_proto
     maxerr = 0
     nontriv = set()
     for t, clauses in validate(res, traces, wd):
@@ -241,6 +244,8 @@ def replay_family(pid, path, select, extra_paths=None):
     res = Result(pid, "quick")
     wd = workdir(pid + "-replay")
     traces = drive([rp], extra_paths)
+    import protocol
+    protocol.run(res, pid, traces, wd, "quick")
     res.traces = len([t for t in traces if t["solves"]])
     r = tlc("Pep", pep_cfg(1, 1, [1], emit=False), wd)
     res.add_tlc("Pep(design, small)", r)
